@@ -9,6 +9,8 @@ Driver for the snapshot-persistence model (C14).  One request per line, one repl
   clean <lg> <hist>               -> ok <dirview> <restored>              restart after the whole history
   chain <lg> <hist> <b> <k> <b2> <k2> -> ok <dirview> <restored>          crash after k steps of the persist of b, restart,
                                                                           then crash after k2 steps of the persist of b2
+  http  <b>:<1|0>(,…) | -         -> ok <dirview> <restored>              a history of POST /api/snapshot/import requests
+                                                                          (payload, import succeeded?), then a restart
   spec  <hist> <b> <restored>     -> ok | viol                            specCrash on an observed restart
 
   lg := 0 (repaired code) | 1 (pinned tree)      hist := - | <b>(,<b>)*
@@ -83,6 +85,15 @@ def handle (_ : Unit) (line : String) : Unit × String :=
           let fs := run ((persistSteps l b2).take k2) (run ((persistSteps l b).take k) (persistAll l hist))
           ((), s!"ok {processView fs} {showRestored (restoreProcess fs)}")
       | _, _, _, _, _, _ => ((), "bad-op")
+  | ["http", rs] =>
+      let parse := fun (t : String) => match t.splitOn ":" with
+        | [b, ok] => b.toNat?.map (fun n => (n, ok == "1"))
+        | _ => none
+      match (if rs == "-" then some [] else (rs.splitOn ",").mapM parse) with
+      | some reqs =>
+          let fs := handleAll reqs
+          ((), s!"ok {processView fs} {showRestored (restoreProcess fs)}")
+      | none => ((), "bad-op")
   | ["clean", lg, h] => match parseLg? lg, parseHist? h with
       | some l, some hist =>
           let fs := persistAll l hist
